@@ -309,11 +309,11 @@ func (s *TunnelServer) handleNewChannel(channel ssh.NewChannel, extraPayloadCh c
 		if req.Type != "exec" || len(req.Payload) <= 4 {
 			continue
 		}
-		end := 4 + binary.BigEndian.Uint32(req.Payload[:4])
-		if len(req.Payload) < int(end) {
+		n := binary.BigEndian.Uint32(req.Payload[:4])
+		if uint64(n) > uint64(len(req.Payload)-4) {
 			continue
 		}
-		extraPayload := string(req.Payload[4:end])
+		extraPayload := string(req.Payload[4 : 4+int(n)])
 		select {
 		case extraPayloadCh <- extraPayload:
 		default:
